@@ -608,8 +608,19 @@ fn other_one<B: FA, H: ElementHasher<BaseField = B> + Send + Sync>(c: &OtherCase
                 if m.len() >= TraceInfo::MAX_META_LENGTH {
                     m[0] ^= 1;
                 } else {
-                    // every fourth time a zero byte: metadata that differs by trailing zero bytes only
-                    m.push(if c.sel2 % 4 == 0 { 0 } else { c.sel as u8 });
+                    // every fourth time a zero byte: metadata that differs by trailing zero bytes only; every fourth
+                    // time the tail of the previous (ELEMENT_BYTES - 1)-byte chunk: what an encoder that reuses
+                    // its chunk buffer without clearing it would make of a short last chunk
+                    let chunk = fp.elem_bytes - 1;
+                    let t = m.len() % chunk;
+                    if c.sel2 % 4 == 1 && m.len() > chunk && t != 0 && m.len() + (chunk - t) <= TraceInfo::MAX_META_LENGTH {
+                        let prev_start = m.len() - t - chunk;
+                        let tail: Vec<u8> = m[prev_start + t..prev_start + chunk].to_vec();
+                        m.extend(tail);
+                        obs.label("ctx:meta-extended-by-previous-chunk-tail");
+                    } else {
+                        m.push(if c.sel2 % 4 == 0 { 0 } else { c.sel as u8 });
+                    }
                 }
                 (TraceInfo::new_multi_segment(ti.main_trace_width(), ti.aux_segment_width(), ti.get_num_aux_segment_rand_elements(), ti.length(), m), o, "meta-extended")
             },
